@@ -3,6 +3,37 @@
 from __future__ import annotations
 
 
+def _state_algebra(ctx, pid):
+    """Spec-level lemmas that lift the per-call contract of scan_binary_op to independence of the bracketing:
+    the carried state is a map code -> optional value, and one step combines pointwise with
+       ffill     :  step(x, y) = y if y is a valid value else x                       (x, y optional values; absent behaves like NaN)
+       nancumsum :  step(x, y) = x + y, absent = identity 0                            (finite values: nancumsum intermediates are never NaN)
+    Both are associative with the absent state as identity, so any bracketing of the blocks gives the same carried state."""
+    import z3
+
+    from ..core import DISCHARGED, UNDECIDED, VIOLATED, Obligation
+    from ..pyvc import valsort as V
+
+    out = []
+
+    def prove(name, goal, text):
+        s = z3.Solver()
+        s.set("timeout", 10000)
+        s.add(z3.Not(goal))
+        r = s.check()
+        out.append(Obligation(name=f"{pid}.scan_state.{name}", function="lemma (spec level) over the contract of scan_binary_op", status=DISCHARGED if r == z3.unsat else (VIOLATED if r == z3.sat else UNDECIDED),
+                              backend="z3", formula=text, detail="" if r == z3.unsat else str(s.model() if r == z3.sat else s.reason_unknown())[:300]))
+
+    a, b, c = z3.Consts("a b c", V.Val)
+    lv = lambda x, y: z3.If(V.is_nan(y), x, y)  # last valid value (absent / NaN carries nothing)
+    prove("last_valid.associative", lv(a, lv(b, c)) == lv(lv(a, b), c), "forall a b c: lastvalid(a, lastvalid(b, c)) == lastvalid(lastvalid(a, b), c)")
+    prove("last_valid.identity", z3.And(lv(V.nan, a) == a, z3.Implies(z3.Not(V.is_nan(a)), lv(a, V.nan) == a)), "NaN / absent is the identity of lastvalid")
+    x, y, z = z3.Reals("x y z")
+    prove("add.associative_on_finite_values", z3.And((x + y) + z == x + (y + z), x + 0 == x, 0 + x == x), "finite reals: (x + y) + z == x + (y + z), 0 is the identity (mixing +inf and -inf is known finding F17)")
+    ctx.add_obligations(out)
+    return len(out)
+
+
 def run(ctx, pid):
     from ..contracts import scan as S
     from ..pyvc.run import add_to_ctx
@@ -14,6 +45,7 @@ def run(ctx, pid):
         c.prefix = pid + c.prefix[3:]
         ex, obs = add_to_ctx(ctx, c, S.SCAN_CALLEES)
         n += len(obs)
+    n += _state_algebra(ctx, pid)
     from ..pyvc import conformance
 
     conformance.add_to_ctx(ctx, ["AlignedArrays.last", "generic_aggregate", "get_indexer"])
